@@ -133,6 +133,7 @@ def build_tu(vu, work, canary=None):
     out = []
     tpl = open(os.path.join(vdir, vu.get("tu", "tu.cpp"))).read().split("\n")
     canary_applied = False
+    emitted_using = set()
     for ln in tpl:
         m = DIRECTIVE.match(ln)
         if not m:
@@ -212,11 +213,6 @@ def build_tu(vu, work, canary=None):
                     e.rewrites.append("R3 range-for -> index loop x%d" % k)
                 if kind in ("extract", "whole", "block"):
                     rule_r7(e, typedef_table(hdr))
-                if "r0" in pos or kind == "whole":
-                    new, k = re.subn(r'(?m)^using (std::\w+|namespace std);\s*$', '', e.text)
-                    e.text = new
-                    if k:
-                        e.rewrites.append("R0 dropped %d using-declarations" % k)
                 for key in sorted(kv):
                     if key.startswith("subst"):
                         sep = kv[key][0]
@@ -231,6 +227,12 @@ def build_tu(vu, work, canary=None):
                         e.rewrites.append("dropped %d lines matching %r" % (k, kv[key]))
             except X.ExtractionError as ex:
                 raise Undecided("extraction", str(ex))
+            if kind != "whole":
+                # carry the source file's own using-declarations (file scope) along with the extract
+                for u in re.findall(r'(?m)^using\s+(?:std::\w+|namespace\s+std)\s*;', text):
+                    if u not in emitted_using:
+                        emitted_using.add(u)
+                        out.append(u)
             out.append('#line %d "%s"' % (e.line, path))
             out.append(e.text)
             out.append('#line %d "tu.cpp"' % (len(out) + 2))
@@ -251,7 +253,9 @@ def build_tu(vu, work, canary=None):
 
 
 def compile_tu(vu, work, extra_defs=(), out="tu.gb"):
-    defs = ["-D" + d for d in vu.get("defines", [])] + ["-D" + d for d in extra_defs]
+    tier = os.environ.get("VERIF_TIER_EFFECTIVE", "quick")
+    defs = ["-D" + d for d in vu.get("defines", [])] + ["-D" + d for d in vu.get("defines_tier", {}).get(tier, [])] + \
+           ["-D" + d for d in extra_defs]
     incs = ["-I", os.path.join(work, "hdr"), "-I", vu["_dir"], "-I", os.path.join(VERIF, "vstl"),
             "-I", os.path.join(VERIF, "lib")]
     cmd = ["goto-cc", "-x", "c++", "-nostdinc", "-DNDEBUG", "-DVERIF_CBMC"] + defs + incs + ["tu.cpp", "-o", out]
@@ -538,6 +542,7 @@ def main():
     args = ap.parse_args()
     if os.environ.get("VERIF_TIER") in ("quick", "thorough"):
         args.tier = os.environ["VERIF_TIER"]
+    os.environ["VERIF_TIER_EFFECTIVE"] = args.tier
     pid = args.property
     seed = int(os.environ.get("VERIF_SEED", "0") or 0)
     t0 = time.time()
@@ -621,6 +626,9 @@ def main():
 
         # ------------------------------------------------ failures: known findings, replay
         os.makedirs(os.path.join(VERIF, "replays"), exist_ok=True)
+        for old in glob.glob(os.path.join(VERIF, "replays", pid + "-*.json")):
+            if args.vu is None or ("-" + args.vu + "-") in old:
+                os.remove(old)
         out_lines = []
         real_violations = 0
         handled_known = set()
